@@ -239,8 +239,18 @@ def part_C(ck, rng, n):
             C = er.build_controller(cfg)
             set_exact_lagrange(C)
             er.Recorder.log = []; er.Recorder.deep = False
-            C.run(u0=ex.FracVec(u0), t0=F(0), Tend=dt)
+            import signal
+            def _al(signum, frame):
+                raise er.RunBudgetExceeded()
+            _old = signal.signal(signal.SIGALRM, _al); signal.setitimer(signal.ITIMER_REAL, 30)
+            try:
+                C.run(u0=ex.FracVec(u0), t0=F(0), Tend=dt)
+            finally:
+                signal.setitimer(signal.ITIMER_REAL, 0); signal.signal(signal.SIGALRM, _old)
         except (ZeroDivisionError, StopIteration):
+            continue
+        except er.RunBudgetExceeded:
+            ck.violation('exact multilevel iteration did not finish within 30 s', dict(kind=kind, levels=nl, nodes=nn), match={'kind': 'cycle_timeout'}, no_input=True)
             continue
         ck.case(key=('cycle', kind, nl, tuple(nn), dim, cfg['finter'], str(cfg['nsweeps'])), nontrivial=True,
                 sample=dict(kind=kind, levels=nl, nodes=nn, dim=dim))
